@@ -281,3 +281,38 @@ def benign_call(c: ast.Call) -> bool:
     rules that treat "any call" as fallible exempt them"""
     d = dotted(c.func) or ''
     return d in BENIGN_CALLS or d.startswith(BENIGN_PREFIXES)
+
+
+import re as _re
+
+_TIMEOUT_PARAM = _re.compile(r'(^|_)timeout$|wait_time|wait_interval')
+
+
+def check_timeout_passthrough(ck, rid: str, funcs, what='timeout'):
+    """A caller-given timeout / wait reaches its use unchanged: it is re-bound only where it was tested `is None`, and
+    never replaced through truthiness (`t = t or default`, `t if t else default`): 0 is a legal value ("do not wait",
+    "poll", "release at once") that truthiness conflates with "not given"."""
+    from mpsa.guard import Guard
+
+    n_ob = 0
+    for f in funcs:
+        ps = [p for p in f.params() if _TIMEOUT_PARAM.search(p)]
+        if not ps:
+            continue
+        cfg = build_cfg(f, ck.repo, None)
+        g = Guard(cfg, cfg.lat)
+        for p in ps:
+            probs = []
+            for n in cfg.nodes:
+                if n.kind == 'stmt' and isinstance(n.ast, (ast.Assign, ast.AugAssign)) and any(isinstance(t, ast.Name) and t.id == p for t in (n.ast.targets if isinstance(n.ast, ast.Assign) else [n.ast.target])):
+                    S = g.at(n.id)
+                    if not S or any(('none', p) not in d for d in S):
+                        probs.append(f'L{n.lineno}: `{norm_text(n.ast)[:60]}` can replace a `{p}` the caller gave explicitly (not limited to `{p} is None`)')
+            for x in ast.walk(f.node):
+                if isinstance(x, ast.BoolOp) and isinstance(x.op, ast.Or) and isinstance(x.values[0], ast.Name) and x.values[0].id == p and len(x.values) == 2 and not isinstance(x.values[1], (ast.Compare, ast.Call, ast.UnaryOp, ast.BoolOp)):
+                    probs.append(f'L{x.lineno}: `{norm_text(x)}` replaces an explicit 0 by the default: "do not wait" becomes "wait {norm_text(x.values[1])}"')
+                if isinstance(x, ast.IfExp) and isinstance(x.test, ast.Name) and x.test.id == p:
+                    probs.append(f'L{x.lineno}: `{norm_text(x)[:60]}` decides by truthiness of `{p}`: an explicit 0 is treated as "not given"')
+            n_ob += 1
+            ck.ob(rid, f, (f.node.lineno, f'{f.qualname}({p})'), not probs, '; '.join(sorted(set(probs))) if probs else f'`{p}` reaches its uses as given; a default replaces `None` only')
+    return n_ob
